@@ -38,18 +38,24 @@ const (
 	PtError    = "sub.error.before_write"
 	PtInit     = "trigger.init.before_store"
 	PtStart    = "trigger.start.begin"
+	// PtHeartbeat: executeSubscriptionHeartbeat, after the context checks and before sendHeartbeat
+	// takes the write lock (key = SubscriptionIdentifier).
+	PtHeartbeat = "sub.heartbeat.before_lock"
 )
 
 // Windows owned by the harness itself: the recording writer parks inside the call, i.e. while
 // the resolver holds the subscription's write lock.
 const (
-	PtWFlush    = "writer.flush"    // event / updateSub: inside the target's Flush
-	PtWComplete = "writer.complete" // complete: inside the target's Complete
-	PtWError    = "writer.error"    // error: inside the target's Error
+	PtWFlush     = "writer.flush"     // event / updateSub: inside the target's Flush
+	PtWComplete  = "writer.complete"  // complete: inside the target's Complete
+	PtWError     = "writer.error"     // error: inside the target's Error
+	PtWHeartbeat = "writer.heartbeat" // heartbeat: inside the target's Heartbeat
 )
 
 // IsWriterPoint reports whether the window is inside a writer call.
-func IsWriterPoint(p string) bool { return p == PtWFlush || p == PtWComplete || p == PtWError }
+func IsWriterPoint(p string) bool {
+	return p == PtWFlush || p == PtWComplete || p == PtWError || p == PtWHeartbeat
+}
 
 // Filter kinds (field data.k of the event, k in 0..2).
 const (
